@@ -303,6 +303,10 @@ class RemoteWorker(Worker, metaclass=RemoteWorkerMeta):
                 if force:
                     self._child.terminate()
                     self._child.join(timeout)
+                    if self._child.is_alive():
+                        # SIGTERM stays pending on a stopped process
+                        self._child.kill()
+                        self._child.join(timeout)
                     try:
                         send_msg(self._socket, (False, None), comment='data: force terminate result')
                         self._socket.close()
